@@ -13,7 +13,7 @@ rule = ("scripts = 'p fmt <description of the style> 255 255' then groups of 'p 
         "executable and re-checked by it on every run), 'p node' (real mpt_parse_node on that text; the spec "
         "alternative is exactly the normalised forest), closed by 'p end'; stream 1 enumerates EVERY ordered forest "
         "shape with <= 5 nodes (thorough: 6) x 4 name patterns (distinct / all equal / alternating / digits and dashes) x 4 value patterns x the "
-        "styles that can express it (brace: all; sep, bar: options + one level of sections; enc: option lists) x 5 decorations (the fifth glues a comment directly to section names / braces); stream 2 = random forests (depth <= 5, fan-out <= 5, names "
+        "styles that can express it (brace: all; sep, bar: options + one level of sections; enc: all) x 5 decorations (the fifth glues a comment directly to section names / braces); stream 2 = random forests (depth <= 5, fan-out <= 5, names "
         "up to 300 bytes, values of 1..40 bytes and of 249..257 bytes, thorough: 65534..65537 bytes, values that "
         "need quoting, embedded quotes/backslashes/line feeds/high bytes); stream 4 = 8 format descriptions that name their escape characters x values containing the other quote "
         "characters (text written by this module, expectation given with 'p expect'); stream 3 = names that contain the path "
@@ -188,7 +188,7 @@ def random_forests(tier, seed, scale):
     for style in STYLES:
         reqs = []
         for _ in range(n // 3 + 1):
-            f = _rand_forest(r, tier, 0, style != "brace")
+            f = _rand_forest(r, tier, 0, style in ("sep", "bar"))
             reqs.append((style, r.randrange(5), forest_text(f)))
         res = render_all(reqs)
         items = [(d, f, h) for (s, d, f), (h, adm) in zip(reqs, res) if adm and h]
@@ -212,8 +212,6 @@ def dotted(tier):
         res = render_all(reqs)
         for (st, d, ft), (h, adm) in zip(reqs, res):
             if not h or adm:
-                continue
-            if style == "enc" and "(" in ft:
                 continue
             lines = [fmt_line(style), "p root .", "p render %s %d %s %s" % (style, d, ft, h), "p node", "p end"]
             out.append(("dot:%s:%d:%s" % (style, d, ft), lines))
